@@ -184,6 +184,7 @@ func (P *Program) posStr(p token.Pos) string {
 type Loop struct {
 	Header  *ssa.BasicBlock
 	Blocks  map[*ssa.BasicBlock]bool
+	Tail    map[*ssa.BasicBlock]bool
 	Parent  *Loop
 	Ordinal int // 1-based source order, 0 if unmatched
 	MinPos  token.Pos
@@ -246,6 +247,30 @@ func analyzeLoops(fn *ssa.Function, decl *ast.FuncDecl) *LoopInfo {
 			}
 		}
 		li.Inner[b] = best
+	}
+	// exit tails: blocks outside the loop all of whose predecessors are in the
+	// loop or its tail (return blocks, the block after the loop). When a loop is
+	// unrolled they are duplicated per iteration, so paths are not merged.
+	for _, l := range li.Loops {
+		l.Tail = map[*ssa.BasicBlock]bool{}
+		for changed := true; changed; {
+			changed = false
+			for _, b := range fn.Blocks {
+				if l.Blocks[b] || l.Tail[b] || len(b.Preds) == 0 || !l.Header.Dominates(b) {
+					continue
+				}
+				all := true
+				for _, p := range b.Preds {
+					if !l.Blocks[p] && !l.Tail[p] {
+						all = false
+					}
+				}
+				if all {
+					l.Tail[b] = true
+					changed = true
+				}
+			}
+		}
 	}
 	// source positions
 	for _, l := range li.Loops {
